@@ -130,6 +130,15 @@ pub struct Run<'a> {
     /// A crash interrupted the handling of this block: its effects are partly on disk. Durable-state comparisons are
     /// suspended until the tower has handled it again; RPCs issued before the crash count for it.
     pub partial_block: Option<(bitcoin::BlockHash, Vec<(&'static str, Option<bitcoin::Txid>, Verdict)>)>,
+    http_depth: u32,
+}
+
+/// Removes the HTTP front of a tower when the tower goes away (also by unwinding).
+struct FrontGuard;
+impl Drop for FrontGuard {
+    fn drop(&mut self) {
+        crate::http::remove_front();
+    }
 }
 
 pub enum Stop {
@@ -154,7 +163,14 @@ pub fn entity_counts(ops: &[Op]) -> (u32, u32) {
         TxRef::Penalty { d, .. } => *nd = (*nd).max(d + 1),
         TxRef::Filler(_) => {}
     };
-    for op in ops {
+    let flat: Vec<&Op> = ops
+        .iter()
+        .map(|o| match o {
+            Op::Http { base, .. } => base.as_ref(),
+            other => other,
+        })
+        .collect();
+    for op in flat {
         match op {
             Op::Register { u } => nu = nu.max(u + 1),
             Op::Add { u, d, sig, blob, .. } => {
@@ -219,6 +235,7 @@ impl<'a> Run<'a> {
             op_ev0: 0,
             after_crash: false,
             partial_block: None,
+            http_depth: 0,
         }
     }
 
@@ -242,6 +259,10 @@ impl<'a> Run<'a> {
                 v,
             });
         }
+    }
+
+    fn in_http(&self) -> bool {
+        self.http_depth > 0
     }
 
     pub fn tx_of(&self, t: &TxRef) -> Transaction {
@@ -715,6 +736,9 @@ impl<'a> Run<'a> {
         let pk = self.model.user_pk(u);
         let before = self.db(ctx).digest();
         let r = tower::api_register(&ctx.api, pk.clone());
+        if crate::http::is_refused_sentinel(&r) {
+            return;
+        }
         let at = format!("op #{} register(user {u})", self.cur_op);
         let h = self.model.h;
         let cfg = self.model.cfg.clone();
@@ -805,6 +829,9 @@ impl<'a> Run<'a> {
         let before = self.db(ctx);
         let ev0 = self.log.len();
         let r = tower::api_add(&ctx.api, loc.to_vec(), blob_bytes.clone(), tsd, sig_str.clone());
+        if crate::http::is_refused_sentinel(&r) {
+            return (BTreeSet::new(), BTreeSet::new());
+        }
         let events = self.log.since(ev0);
         let rpcs = rpcs_of(&events);
         self.stats.rpcs += rpcs.len() as u64;
@@ -1053,6 +1080,9 @@ impl<'a> Run<'a> {
         let (sig_str, eff) = self.make_sig(u, &msg, &alt, sig);
         let before = self.db(ctx).digest();
         let r = tower::api_get(&ctx.api, loc.to_vec(), sig_str);
+        if crate::http::is_refused_sentinel(&r) {
+            return;
+        }
         let at = format!("op #{} get(user {u}, dispute {d})", self.cur_op);
         let mut vs = vec![];
         let eff_user = eff.filter(|e| self.model.users.contains_key(e));
@@ -1087,6 +1117,9 @@ impl<'a> Run<'a> {
         let (sig_str, eff) = self.make_sig(u, &msg, &alt, sig);
         let before = self.db(ctx).digest();
         let r = tower::api_subinfo(&ctx.api, sig_str);
+        if crate::http::is_refused_sentinel(&r) {
+            return;
+        }
         let at = format!("op #{} subinfo(user {u})", self.cur_op);
         let mut vs = vec![];
         let eff_user = eff.filter(|e| self.model.users.contains_key(e));
@@ -1257,7 +1290,11 @@ impl<'a> Run<'a> {
                 };
                 let before = self.db(ctx).digest();
                 let r = tower::api_register(&ctx.api, id);
-                if !matches!(&r, Err(e) if e.code == tonic::Code::InvalidArgument) {
+                if crate::http::is_refused_sentinel(&r) {
+                    // judged by the HTTP oracle
+                } else if !*ctx.reachable.0.lock().unwrap() && matches!(&r, Err(e) if e.code == tonic::Code::Unavailable) {
+                    // the tower refuses everything while it has the node flagged unreachable
+                } else if !matches!(&r, Err(e) if e.code == tonic::Code::InvalidArgument) {
                     self.report(vec![viol("C15", "bad_user_id", format!("op #{}: malformed user id not refused: {}", self.cur_op, short(&r)))]);
                 }
                 if self.db(ctx).digest() != before {
@@ -1289,12 +1326,79 @@ impl<'a> Run<'a> {
                 }
             }
             Op::Restart => return Some(Stop::Restart),
+            Op::Http { base, m } => {
+                let before_db = self.db(ctx).digest();
+                let before_mem = mem_digest(ctx);
+                crate::http::arm(m.clone());
+                self.http_depth += 1;
+                let stop = self.exec_op(ctx, base);
+                self.http_depth -= 1;
+                let _ = crate::http::take_armed();
+                let seen = crate::http::take_seen();
+                let mut vs = vec![];
+                for v in seen.violations.iter() {
+                    let mut detail = format!("op #{} {}: {}", self.cur_op, base.kind(), v.detail);
+                    if let Some(p) = LAST_PANIC.with(|p| p.borrow().clone()) {
+                        detail.push_str(&format!(" [panic at {}: {}]", normalise_location(&p.location), first_line(&p.message)));
+                    }
+                    vs.push(viol("C15", v.clause, detail));
+                }
+                if seen.status != 200 && (self.db(ctx).digest() != before_db || mem_digest(ctx) != before_mem) {
+                    vs.push(viol(
+                        "C15",
+                        "refused_request_changed_state",
+                        format!("op #{} {} under {:?}: answered {} but the tower state changed", self.cur_op, base.kind(), m, seen.status),
+                    ));
+                }
+                self.model.probe(if seen.refused_expected { "http_refusal_expected" } else { "http_meaning_kept" });
+                if seen.status == 503 {
+                    self.model.probe("http_503");
+                }
+                self.report(vs);
+                return stop;
+            }
+            Op::Ping => {
+                let m = crate::http::take_armed().unwrap_or(crate::http::HttpMut::Plain);
+                let _: Result<serde_json::Value, _> = crate::http::http_call(crate::http::Endpoint::Ping, serde_json::Value::Null, m);
+                if !self.in_http() {
+                    let seen = crate::http::take_seen();
+                    let vs = seen.violations.iter().map(|v| viol("C15", v.clause, format!("op #{} ping: {}", self.cur_op, v.detail))).collect();
+                    self.report(vs);
+                }
+            }
             other => self.node_op(other),
         }
         let full = self.cur_op + 1 == self.hist.ops.len();
         self.observe(ctx, &tu, &tr, full);
         None
     }
+}
+
+/// What the tower holds in memory, as far as the (private) API shows it.
+pub fn mem_digest(ctx: &TowerCtx) -> u64 {
+    let mut items: Vec<String> = vec![];
+    for a in tower::api_all_appointments(&ctx.api) {
+        items.push(format!("{a:?}"));
+    }
+    for u in tower::api_get_users(&ctx.api) {
+        items.push(format!("{}:{:?}", hex::encode(&u), tower::api_get_user(&ctx.api, u.clone()).map(|r| {
+            let mut apps: Vec<String> = r.appointments.iter().map(hex::encode).collect();
+            apps.sort();
+            (r.available_slots, r.subscription_expiry, apps)
+        })));
+    }
+    let info = tower::api_tower_info(&ctx.api);
+    items.push(format!("{}/{}/{}", info.n_registered_users, info.n_watcher_appointments, info.n_responder_trackers));
+    items.sort();
+    let mut h: u64 = 0xcbf29ce484222325;
+    for it in items {
+        for b in it.as_bytes() {
+            h ^= *b as u64;
+            h = h.wrapping_mul(0x100000001b3);
+        }
+        h = h.wrapping_mul(31).wrapping_add(7);
+    }
+    h
 }
 
 /// Static clause names for violations of other properties observed after a crash (signatures need 'static strs).
@@ -1384,6 +1488,10 @@ pub fn run_history(hist: &History) -> RunResult {
                 let _ = boot_tip;
                 run.on_boot(ctx, ev0, persisted);
                 booted = true;
+                let _front = (hist.property == "C15").then(|| {
+                    crate::http::install_front(ctx.api.clone());
+                    FrontGuard
+                });
                 if boots == 1 {
                     run.stats.crash_points_first_boot = run.crash_counter.load(Ordering::SeqCst);
                 }
@@ -1703,6 +1811,9 @@ impl<'a> Run<'a> {
             self.stats.faults_fired.insert(k.to_string(), *v);
         }
         drop(st);
+        for (k, v) in crate::http::take_stats() {
+            *self.stats.probes.entry(format!("http_{k}")).or_insert(0) += v;
+        }
         // digest of the event log (determinism check)
         let mut h = 0u64;
         for e in self.log.since(0) {
@@ -1722,6 +1833,10 @@ impl<'a> Run<'a> {
         }) || !self.stats.faults_fired.is_empty();
         if !self.hist.faults.crash_at.is_empty() && self.stats.crashes == 0 {
             self.stats.nontrivial = false;
+        }
+        if self.hist.property == "C15" {
+            self.stats.nontrivial =
+                self.stats.probes.contains_key("http_refusal_expected") && self.stats.probes.contains_key("http_meaning_kept");
         }
         RunResult {
             found: self.found,
